@@ -295,6 +295,14 @@ def late_custom_downstream(res, missing, never=False):
     model = res.model
     seen = set()
     todo = [k for (u, q, o) in roots for k in model.children(u, q, o)]
+    if never:
+        # the root task itself is left incomplete (its required custom
+        # output never arrives): it stays in the pool and holds back the
+        # runahead limit, so its own next instance may never be released
+        for (u, q, _o) in roots:
+            later = [x for x in model._valid[u] if x > q]
+            if later:
+                todo.append((u, min(later)))
     while todo:
         k = todo.pop()
         if k in seen:
